@@ -2,6 +2,7 @@
 base strings, known-finding signatures (predicates over a failing case)."""
 
 KIND_NAMES = {
+    401: 'session/life: start/stop/verify commands interleaved with allocation, verification, piece-write and stop-announce results in any order and with changes to the files while stopped, vs Life.v (exact) + truthfulness monitor',
     101: 'session/leech: download path of the stepped event loop (message, write-result, snub, disconnect handlers) under scripted honest/hostile peers vs Leech.v (piece assignments validated, everything else predicted)',
     102: 'C01/piecedl: piecedownloader vs PieceDl.v',
     1301: 'C13/infodl: infodownloader vs InfoDl.v',
@@ -51,6 +52,11 @@ PROPS = {
         'kinds': {101: {'quick': 1500, 'thorough': 40000}, 102: {'quick': 800, 'thorough': 20000}},
         'trusted': ['SHA-1: a buffer whose digest equals the recorded hash is the recorded content (collision resistance)'],
         'assumptions': [],
+    },
+    'C04': {
+        'kinds': {401: {'quick': 1500, 'thorough': 40000}},
+        'trusted': ['the dispatch of torrent.run() and of the command channels is mirrored by hand in VLoop (Start/Stop/Verify call the handlers the loop would call)', 'the harness reports which files exist and which pieces on disk equal the torrent content (environment data of the model)'],
+        'assumptions': ['observed "piece i downloaded" events are legal (torrent downloading, piece not yet held): checked per case by the model'],
     },
     'C08': {
         'kinds': {1102: {'quick': 2500, 'thorough': 60000}, 1103: {'quick': 48, 'thorough': 600}, 101: {'quick': 1500, 'thorough': 40000}, 1303: {'quick': 1500, 'thorough': 40000}, 303: {'quick': 160, 'thorough': 2400}},
@@ -143,4 +149,30 @@ MONITOR_DECIDES = {1503, 1701}
 TAG_KINDS = {901: (902, {1: 'peer already downloading', 2: 'no pick allowed (choked)', 3: 'allowed-fast / sequential-first', 4: 'file edge or sequential', 5: 'stage reached, no candidate', 6: 'end-game pick', 7: 'end-game starts', 8: 'stalled re-request', 9: 'rarest'})}
 
 # known-finding signatures: id -> predicate over a case dict (kind, in, obs, exp, mon)
-SIGNATURES = {}
+def _life_events(c):
+    inp = c['in'] if isinstance(c['in'], list) else [int(x) for x in str(c['in']).split()]
+    np_, nf = inp[0], inp[1]
+    evs = inp[2 + nf + np_:]
+    i = 0
+    out = []
+    while i < len(evs):
+        ev = evs[i]
+        skip = {4: 2 + np_ + np_ + nf, 7: 1, 8: nf + np_}.get(ev, 0)
+        out.append((ev, evs[i + 1:i + 1 + skip]))
+        i += 1 + skip
+    return np_, nf, out
+
+def _sig_external_corruption(c):
+    # K-C04-g: the disk was changed while the torrent was stopped, every file stayed present, a piece is damaged
+    if c.get('kind') != 401:
+        return False
+    try:
+        np_, nf, evs = _life_events(c)
+    except Exception:
+        return False
+    for ev, args in evs:
+        if ev == 8 and all(args[:nf]) and not all(args[nf:nf + np_]):
+            return True
+    return False
+
+SIGNATURES = {'K-C04-g': _sig_external_corruption}
